@@ -276,10 +276,12 @@ def gen_adapt(rng, n):
 def gen_hist(rng, kind):
     """a history of calls on ONE mapper object (or two mappers over the same data, interleaved)"""
     maxn = 5
-    if kind == "del": base = gen_del(rng, maxn, cap=24, kmax=9)
-    else: base = gen_rect(rng, rng.choice(["exact", "public"]), maxn, cap=24)
-    if base is None: return None
-    if kind == "rect" and base["shape"][0] * base["shape"][1] > 20: base = None
+    base = None
+    for _ in range(20):
+        if kind == "del": base = gen_del(rng, maxn, cap=24, kmax=9)
+        else: base = gen_rect(rng, rng.choice(["exact", "public"]), maxn, cap=24)
+        if base is not None and kind == "rect" and base["shape"][0] * base["shape"][1] > 20: base = None
+        if base is not None: break
     if base is None: return None
     twin, share = None, False
     if rng.random() < 0.35:
